@@ -99,6 +99,10 @@ type ProxyOpts struct {
 	LogLevel   string // default "info"
 	Env        []string
 	GoMaxProcs int
+	// ExpectBindFailure: the test itself holds an address of the configuration, so "address already in use" at start-up
+	// is the outcome under observation. Otherwise such a start-up failure is a left-over of an earlier process on this
+	// block (connections in TIME_WAIT on the port of a listener that binds without SO_REUSEADDR) and the start is retried.
+	ExpectBindFailure bool
 }
 
 // ProxyBin returns the binary to run (built by the driver from /repo's working tree).
@@ -149,6 +153,16 @@ func StartProxy(cfgYAML string, files map[string]string, o ProxyOpts) (*Proxy, e
 	if o.GoMaxProcs > 0 {
 		args = append(args, "--gomaxprocs", fmt.Sprint(o.GoMaxProcs))
 	}
+	for attempt := 0; ; attempt++ {
+		p, err := launchProxy(bin, args, dir, o)
+		if err != nil || o.ExpectBindFailure || !p.Exited() || attempt >= 35 || !strings.Contains(p.Stderr(), "address already in use") {
+			return p, err
+		}
+		time.Sleep(2 * time.Second)
+	}
+}
+
+func launchProxy(bin string, args []string, dir string, o ProxyOpts) (*Proxy, error) {
 	cmd := exec.Command(bin, args...)
 	cmd.Dir = dir
 	cmd.Env = append(os.Environ(), "MOSPROXY_JSONLOGGER=1", "GORACE=halt_on_error=0 exitcode=66")
